@@ -452,7 +452,9 @@ impl<'a> G<'a> {
     }
 
     fn comment_text(&mut self) -> Vec<u8> {
-        const C: &[&str] = &[" c ", "note", " a > b ", " <x> ", " line1\n line2 ", "", " \u{e9} ", " & ", " a - b ", " > ", "x>y", " ->"];
+        const C: &[&str] = &[
+            " c ", "note", " a > b ", " <x> ", " line1\n line2 ", "", " \u{e9} ", " & ", " a - b ", " > ", "x>y", " ->", " <a>\n <b/>\n </a>\n", ">\n\n", " <!- \n> ",
+        ];
         C[self.rng.below(C.len() as u64) as usize].as_bytes().to_vec()
     }
 
@@ -764,7 +766,7 @@ fn node_ref<'b>(n: &'b GNode, path: &[usize]) -> &'b GNode {
 }
 
 pub const DEFECTS: &[&str] = &[
-    "unknown-element", "misplaced-element", "unknown-attribute", "unknown-enum-item", "foreign-enum-item", "version-element", "version-attribute",
+    "unknown-element", "misplaced-element", "unknown-attribute", "unknown-enum-item", "foreign-enum-item", "version-element", "version-element-nested", "version-attribute",
     "version-enum-item", "choice-conflict", "multiplicity", "missing-short-name", "missing-required-attr", "too-long", "pattern-mismatch",
     "not-a-number", "bad-entity", "bad-entity-sign", "trailing-data", "bad-version", "bad-namespace", "header-inside", "text-forbidden",
     "invalid-utf8", "element-in-chars", "empty-value",
@@ -915,13 +917,15 @@ impl<'a> G<'a> {
                         }
                     }
                 }
-                "version-element" => {
+                "version-element" | "version-element-nested" => {
                     if !elem_only && mode != ContentMode::Mixed {
                         continue;
                     }
                     let listing: Vec<(ElementName, ElementType, u32, u32)> = et.sub_element_spec_iter().collect();
                     for (cname, _, mask, _) in listing {
-                        if mask & vm == 0 && et.find_sub_element(cname, vm).is_none() && et.find_sub_element(cname, u32::MAX).is_some() {
+                        // nested: the spec entry sits inside a group of the parent's type (index path of length >= 2)
+                        let depth_ok = |idx: &Vec<usize>| class == "version-element" || idx.len() >= 2;
+                        if mask & vm == 0 && et.find_sub_element(cname, vm).is_none() && et.find_sub_element(cname, u32::MAX).map(|(_, i)| depth_ok(&i)).unwrap_or(false) {
                             let n = node_at(root, p);
                             if mode == ContentMode::Mixed && matches!(n.items.last(), Some(GItem::Text(_))) {
                                 continue;
@@ -1177,6 +1181,23 @@ impl<'a> G<'a> {
                 Some(t) => t,
                 None => continue,
             };
+            if class == "mixed-split" {
+                // text of a mixed element interrupted by a comment / PI: two adjacent text items after loading
+                if et.content_mode() == ContentMode::Mixed && matches!(et.chardata_spec(), Some(CharacterDataSpec::String { .. })) {
+                    let n = node_at(root, p);
+                    let mid = if self.chance(50) { GItem::Comment(b"c".to_vec()) } else { GItem::Raw(b"<?pi?>".to_vec()) };
+                    let mut items = vec![GItem::Text(GText::plain(b"a")), mid, GItem::Text(GText::plain(b"b"))];
+                    // keep the element children (after the text, so the runs stay adjacent)
+                    for it in n.items.drain(..) {
+                        if let GItem::Node(_) = it {
+                            items.push(it);
+                        }
+                    }
+                    n.items = items;
+                    return true;
+                }
+                continue;
+            }
             if et.content_mode() != ContentMode::Characters {
                 continue;
             }
@@ -1467,7 +1488,7 @@ pub fn main(args: &[String]) {
     }
     g.stats.insert("kinds-targeted".into(), kinds_hit.len() as u64);
     // valid documents of the classes that are known to be mishandled
-    for class in ["pattern-ref", "enc-blank", "split-text", "split-text-pi"] {
+    for class in ["pattern-ref", "enc-blank", "split-text", "split-text-pi", "mixed-split"] {
         let mut made = 0;
         let want = if thorough { 120 } else { 24 };
         let mut tries = 0;
@@ -1488,21 +1509,46 @@ pub fn main(args: &[String]) {
     }
     // defect injector
     let per_class = if thorough { 400 } else { 50 };
+    // (version, type) pairs that have a version-foreign sub-element inside a nested group
+    let mut nested_sites: Vec<(usize, ElementType)> = Vec::new();
+    for (vi, v) in vers.iter().enumerate() {
+        let vm = *v as u32;
+        for t in chains_all[vi].order.iter() {
+            if t.content_mode() == ContentMode::Characters {
+                continue;
+            }
+            let hit = t.sub_element_spec_iter().any(|(cname, _, mask, _)| {
+                mask & vm == 0 && t.find_sub_element(cname, vm).is_none() && t.find_sub_element(cname, u32::MAX).map(|(_, i)| i.len() >= 2).unwrap_or(false)
+            });
+            if hit {
+                nested_sites.push((vi, *t));
+            }
+        }
+    }
+    g.stats.insert("nested-version-foreign-sites(version,type)".into(), nested_sites.len() as u64);
     for class in DEFECTS {
         let mut made = 0;
         let mut tries = 0;
+        let per_class = if *class == "version-element-nested" { if thorough { nested_sites.len().max(per_class) } else { 160 } } else { per_class };
         while made < per_class && tries < per_class * 30 {
             tries += 1;
             let k = g.rng.below(trees.len() as u64) as usize;
-            let (mut tree, v, _) = trees[k].clone();
+            let (mut tree, mut v, _) = trees[k].clone();
+            if *class == "version-element-nested" && !nested_sites.is_empty() {
+                // a document that reaches one of the (few) types with such an entry, cycling through all of them
+                let (vi, t) = nested_sites[(made * 2 + (seed as usize % 2) + tries - made - 1) % nested_sites.len()];
+                v = vers[vi];
+                tree = g.gen_doc(v, &chains_all[vi], Some(t), 6);
+            }
             g.v = v;
             let mut trailer = Vec::new();
-            let ndef = if thorough { 1 + g.rng.below(3) } else { 1 };
+            // (the class that is a recorded hole is never combined: a second defect on the same site would hide which one was accepted)
+            let ndef = if thorough && *class != "empty-value" { 1 + g.rng.below(3) } else { 1 };
             let mut ok = g.inject(&mut tree, class, &mut trailer);
             let mut tag = format!("x={}", class);
             for _ in 1..ndef {
                 let c2 = DEFECTS[g.rng.below(DEFECTS.len() as u64) as usize];
-                if ok && g.inject(&mut tree, c2, &mut trailer) {
+                if ok && c2 != "empty-value" && g.inject(&mut tree, c2, &mut trailer) {
                     tag = format!("{}+{}", tag, c2);
                 }
             }
